@@ -11,10 +11,16 @@ SRC = os.path.join(REPO, "src")
 TU_TEXT = """#include "goldilocks_base_field.hpp"
 #include "goldilocks_cubic_extension.hpp"
 #include "poseidon_goldilocks.hpp"
+#include "ntt_goldilocks.hpp"
 #include "goldilocks_base_field.cpp"
 #include "goldilocks_cubic_extension.cpp"
 #include "poseidon_goldilocks.cpp"
+#include "ntt_goldilocks.cpp"
 """
+
+# file-scope functions whose qualified name does not contain "Goldilocks" (one extra filtered dump each).  clang's node
+# ids differ between two runs, so the references in the main dump are tied to the definition by NAME (unique, checked).
+EXTRA_FUNCTIONS = ["BR"]
 
 CLANG_FLAGS = ["-std=gnu++17", "-fsyntax-only", "-mavx2", "-mavx512f", "-D__AVX512__", "-fopenmp",
                "-I" + SRC, "-w"]
@@ -92,6 +98,18 @@ class Ast:
         txt = _run_dump(tu, "Goldilocks")
         self.objs = _split(txt)
         _annotate_files(self.objs)
+        self.extra_defs = {}
+        for fname in EXTRA_FUNCTIONS:
+            xo = _split(_run_dump(tu, fname))
+            _annotate_files(xo)
+            defs = [o for o in xo if o.get("kind") == "FunctionDecl" and o.get("name") == fname and
+                    any(c.get("kind") == "CompoundStmt" for c in o.get("inner", []))]
+            if len(defs) == 1:
+                self.objs.append(defs[0])
+                # ids under which the main dump refers to this function
+                ids = set(re.findall(r'"referencedDecl":\s*\{\s*"id":\s*"(0x[0-9a-f]+)",\s*"kind":\s*"FunctionDecl",\s*"name":\s*"%s"'
+                                     % re.escape(fname), txt))
+                self.extra_defs[fname] = (defs[0], ids)
         self.by_id = {}
         self.fn_defs = {}      # id -> decl (with body)
         self.fn_decl_to_def = {}
@@ -99,6 +117,10 @@ class Ast:
         self.methods_by_name = {}
         self._index()
         self._srccache = {}
+        for fname, (d, ids) in self.extra_defs.items():
+            for i in ids:
+                if i not in self.fn_defs:
+                    self.fn_defs[i] = d
 
     def _index(self):
         def reg_fn(d, cls):
